@@ -96,6 +96,23 @@ def corpus(rng, quick):
         {"StartAt": "A", "States": {"A": T("fa", Catch=[{"ErrorEquals": ["EA"], "Next": "R"}], Next="R"), "R": T("fr")}},
         {"StartAt": "B", "States": {"B": T("fb")}}]}}}, {"x": 1},
         {"fa": [("err", "EA", "m")], "fr": [("ok",)], "fb": [("err", "EB", "m")]}, {"fa": 5, "fr": 40, "fb": 20}))
+    # a fan-out whose failure is handled (retried / caught) while a nested fan-out of a sibling branch is still running:
+    # the nested state's late result must not complete the failed attempt
+    def outer(handler, nested):
+        return {"StartAt": "P", "States": {"P": dict({"Type": "Parallel", "Next": "Z", "Branches": [
+            {"StartAt": "A", "States": {"A": T("fa")}},
+            {"StartAt": "N", "States": {"N": nested}}]}, **handler), "Z": {"Type": "Pass", "End": True},
+            "R": {"Type": "Pass", "Result": "recovered", "End": True}}}
+    npar = {"Type": "Parallel", "End": True, "Branches": [{"StartAt": "X", "States": {"X": T("fx")}},
+                                                          {"StartAt": "W", "States": {"W": {"Type": "Wait", "Seconds": 1, "End": True}}}]}
+    nmap = {"Type": "Map", "ItemsPath": "$.items", "MaxConcurrency": 1, "End": True,
+            "Iterator": {"StartAt": "X", "States": {"X": T("fx")}}}
+    for hn, handler in (("retry", {"Retry": [{"ErrorEquals": ["EA"], "IntervalSeconds": 1, "MaxAttempts": 1, "BackoffRate": 1.0}]}),
+                        ("catch", {"Catch": [{"ErrorEquals": ["EA"], "Next": "R"}]}),
+                        ("retry-ok", {"Retry": [{"ErrorEquals": ["EA"], "IntervalSeconds": 3, "MaxAttempts": 2}]})):
+        for nn, nested in (("par", npar), ("map", nmap)):
+            out.append(S("handled-fail-vs-nested-%s-%s" % (nn, hn), outer(handler, nested), {"items": [1, 2]},
+                         {"fa": [("err", "EA", "m")] + ([("ok",)] if hn == "retry-ok" else []), "fx": [("ok",)]}, {"fa": 5, "fx": 40}))
     # a branch / iteration whose (successful) last state outputs an object with an "Error" member: an Error Output handed on by
     # a Catch, or just data that looks like one; its StateExited is logged like any other
     out.append(S("branch-catch-then-succeed", {"StartAt": "P", "States": {"P": {"Type": "Parallel", "End": True, "Branches": [
